@@ -313,6 +313,52 @@ theorem populate_indexed (lp : List FrameType) (hlp : lpOk lp) (items : List (Re
       (rowsOf k (framesIn items)) arrs sel chans hname hch hl hfetch harrs hsel
     exact ⟨m, idx, hm, hb, hsi, hp⟩
 
+/-! ## The log pass: channel order is the Frame's order -/
+
+theorem find_ident (defs : List Chan) (hnd : (defs.map Chan.ident).Nodup) (c : Chan) (hc : c ∈ defs) :
+    defs.find? (fun d => d.ident = c.ident) = some c := by
+  induction defs with
+  | nil => simp at hc
+  | cons d ds ih =>
+    have hnd' := List.nodup_cons.1 (show (d.ident :: ds.map Chan.ident).Nodup from hnd)
+    rcases List.mem_cons.1 hc with rfl | hmem
+    · simp [List.find?]
+    · have hne : d.ident ≠ c.ident := by
+        intro e; apply hnd'.1; rw [e]; exact List.mem_map_of_mem hmem
+      simp [List.find?, hne, ih hnd'.2 hmem]
+
+/-- **Frame-array channels are the Frame's CHANNELS list, in that order.**  Whatever order the CHANNEL set defines its
+objects in (`defs`: reversed, sorted, shuffled, the index channel defined last, channels of several frames interleaved,
+channels no frame uses), the channels picked for a Frame that lists `cs` are exactly `cs` in the listed order — so the
+first listed channel is the X axis and frame-record values are decoded with the listed channels' codes and dimensions. -/
+theorem frame_channels_in_listed_order (defs : List Chan) (hnd : (defs.map Chan.ident).Nodup) (cs : List Chan)
+    (hcs : ∀ c ∈ cs, c ∈ defs) : pickChans defs (cs.map Chan.ident) = .ok cs := by
+  induction cs with
+  | nil => rfl
+  | cons c cs ih =>
+    simp only [List.map_cons, pickChans, find_ident defs hnd c (hcs c (by simp)),
+      ih (fun x hx => hcs x (by simp [hx]))]
+
+/-- **Permutation invariance**: two CHANNEL sets with the same objects in different definition orders give the same
+frame array. -/
+theorem frame_channels_perm_invariant (defs defs' : List Chan) (hp : defs.Perm defs')
+    (hnd : (defs.map Chan.ident).Nodup) (cs : List Chan) (hcs : ∀ c ∈ cs, c ∈ defs) :
+    pickChans defs (cs.map Chan.ident) = pickChans defs' (cs.map Chan.ident) := by
+  rw [frame_channels_in_listed_order defs hnd cs hcs,
+    frame_channels_in_listed_order defs' ((hp.map Chan.ident).nodup_iff.1 hnd) cs (fun c hc => hp.mem_iff.1 (hcs c hc))]
+
+/-- the whole log pass: one frame array per FRAME object in FRAME-set order, each with its listed channels -/
+theorem log_pass_from_tables (defs : List Chan) (hnd : (defs.map Chan.ident).Nodup) :
+    ∀ (lp : List FrameType), (∀ ft ∈ lp, ∀ c ∈ ft.chans, c ∈ defs) →
+      buildLogPass defs (lp.map (fun ft => (ft.name, ft.chans.map Chan.ident))) = .ok lp
+  | [], _ => rfl
+  | ft :: lp, h => by
+    simp only [List.map_cons, buildLogPass, frame_channels_in_listed_order defs hnd ft.chans (h ft (by simp)),
+      log_pass_from_tables defs hnd lp (fun f hf => h f (by simp [hf]))]
+
+example : pickChans [⟨[66], 13, [2]⟩, ⟨[90], 7, [1]⟩, ⟨[65], 2, [1]⟩] [[65], [66]] = .ok [⟨[65], 2, [1]⟩, ⟨[66], 13, [2]⟩] := by
+  decide
+
 /-! non-vacuity: two interleaved frame types, a 2×2 channel, a data-less frame record and an encrypted record -/
 def exLp : List FrameType :=
   [⟨⟨1, 0, [70, 48]⟩, [⟨[88], 2, [1]⟩, ⟨[65], 13, [2, 2]⟩]⟩, ⟨⟨1, 0, [70, 49]⟩, [⟨[89], 17, [1]⟩]⟩]
